@@ -55,7 +55,7 @@ MIN_HITS = {
         'mon:finite': 400, 'mon:range': 200, 'mon:member': 200, 'mon:identity': 60, 'mon:unbiased': 80,
         'mon:tern': 100, 'mon:ternbias': 30, 'mon:drive': 40, 'mon:linear': 200, 'mon:errbound': 100,
         'mon:clientkeys': 20, 'mon:rounds': 60, 'mon:bits': 400, 'mon:zerodraw': 15, 'hook:uq': 300, 'hook:tq': 100, 'hook:rot': 200,
-        'class:zero-leaf-drive': 2, 'class:identical-clients': 10, 'class:many-clients': 5, 'class:huge-cohort': 4, 'hit:reshaped-round': 60, 'coords:unbiased-offgrid': 2000,
+        'class:zero-leaf-drive': 2, 'class:identical-clients': 10, 'class:many-clients': 5, 'class:huge-cohort': 4, 'hit:reshaped-round': 60, 'class:int32-weights-total-above-2^31': 5, 'coords:unbiased-offgrid': 2000,
     },
     'thorough': {
         'mon:finite': 4000, 'mon:range': 2000, 'mon:member': 2000, 'mon:identity': 600, 'mon:unbiased': 800,
@@ -1041,9 +1041,15 @@ def run_agg(ctx, jax, jnp, C):
                  for _ in range(K)]
       if sum(weights) <= 0:
         weights[int(rng.randint(K))] = 1.0 + float(rng.rand())
+    int32_weights = (not many) and K >= 2 and rng.rand() < 0.12
+    if int32_weights:
+      # int32 example / token counts (jnp.int32 scalars) whose total exceeds 2**31 - 1 although every one fits
+      weights = [float(int(rng.uniform(8e8, 2.1e9))) for _ in range(K)]
+      ctx.count('class:int32-weights-total-above-2^31')
+    wtyped = [jnp.asarray(int(w_), jnp.int32) if int32_weights else w_ for w_ in weights]
     seed = int(rng.randint(0, 2**31 - 1))
     ids = [b'c%d' % j for j in range(K)]
-    wit = {'family': 'agg', 'kind': kind, 'levels': levels, 'clients': K, 'identical_params': bool(identical),
+    wit = {'family': 'agg', 'kind': kind, 'levels': levels, 'clients': K, 'identical_params': bool(identical), 'weights_as_int32': bool(int32_weights),
            'weights': weights, 'structure': repr(st), 'leaf_classes': leaf_classes, 'agg_key_seed': seed}
     entry = f'agg.{kind}.apply'
     r0 = ctx.call(f'agg.{kind}.init', lambda: (lambda a: (a, a.init()))(build(kind, levels, jax.random.PRNGKey(seed))),
@@ -1078,7 +1084,7 @@ def run_agg(ctx, jax, jnp, C):
     judged_any = False
     for rnd in range(3):
       rwit = {**wit, 'round': rnd}
-      clients = [(ids[j], trees[j], weights[j]) for j in range(K)]
+      clients = [(ids[j], trees[j], wtyped[j]) for j in range(K)]
       rec['buf'] = []
       try:
         r = ctx.call(entry, agg.apply, clients, state, witness=rwit)
